@@ -27,6 +27,10 @@ var (
 	vPipeResp   []byte
 	vPipeGotRsp bool
 	vPipeReps   map[string]*vRep
+	// the controller round trip of an ISR expansion: applied at once, or (by
+	// choice) some steps after the leader's replicator proposed it
+	vPipeDelayExpand   bool
+	vPipePendingExpand string
 )
 
 func vInstallPipelineStandIns() {
@@ -58,6 +62,11 @@ func vInstallPipelineStandIns() {
 	// replicator: applied to the leader's partition at once
 	m := "(*github.com/liftbridge-io/liftbridge/server.metadataAPI)."
 	vIntercept(m+"ExpandISR", func(x *metadataAPI, ctx context.Context, req *proto.ExpandISROp) *status.Status {
+		if vPipeDelayExpand {
+			vPipePendingExpand = req.ReplicaToAdd
+			vCover("expand-proposed")
+			return nil
+		}
 		vAssert(vPipeLeader.AddToISR(req.ReplicaToAdd) == nil, "AddToISR succeeds")
 		vCover("expand-by-replicator")
 		// the invariant at the very moment the in-sync set grows (a member of
@@ -107,6 +116,10 @@ func VerifC02Pipeline() {
 		// c starts outside the in-sync set (as after an earlier shrink)
 		vAssert(a.p.RemoveFromISR("c") == nil, "RemoveFromISR succeeds")
 		vCover("c-starts-out-of-sync")
+	}
+	vPipeDelayExpand, vPipePendingExpand = false, ""
+	if vParam("delayedexpand", 1) == 1 && !a.p.inISR("c") && vChoose(2) == 1 {
+		vPipeDelayExpand = true
 	}
 	if vChoose(2) == 1 {
 		// stored messages are 70 bytes (1-byte value) or 100 bytes (31-byte
@@ -166,7 +179,31 @@ func VerifC02Pipeline() {
 		if vParam("isrchanges", 1) == 1 {
 			kinds = 4
 		}
+		if vPipeDelayExpand {
+			kinds = 5
+		}
 		switch vChoose(kinds) {
+		case 4: // the controller applies the ISR expansion the replicator proposed earlier
+			if vPipePendingExpand == "" {
+				return
+			}
+			f := vPipeReps[vPipePendingExpand]
+			vAssert(a.p.AddToISR(vPipePendingExpand) == nil, "AddToISR succeeds")
+			vPipePendingExpand = ""
+			vCover("expand-applied-later")
+			holds := a.p.log.HighWatermark() <= f.p.log.NewestOffset()
+			if !holds {
+				vTag("expand-applied-later")
+			}
+			vAssert(holds, "a replica whose ISR expansion is applied some time after it was proposed still holds everything committed")
+			if !holds {
+				return
+			}
+			select {
+			case a.p.commitCheck <- struct{}{}:
+			default:
+			}
+			vYield()
 		case 3: // the replicator's health check removes c from the in-sync set
 			if !a.p.inISR("c") {
 				return
